@@ -345,4 +345,123 @@ theorem readRows_spec (hp : Bool) (rs : List (List Word)) (T L : Nat) (start : D
     rw [hl, Nat.sub_self]
     simp
 
+/-! ### the temperature record reader -/
+
+theorem flatMap_congr_mem {α β} (l : List α) (g1 g2 : α → List β) (h : ∀ x ∈ l, g1 x = g2 x) : l.flatMap g1 = l.flatMap g2 := by
+  induction l with
+  | nil => rfl
+  | cons a rest ih =>
+    simp only [List.flatMap_cons, h a (by simp), ih (fun x hx => h x (List.mem_cons_of_mem _ hx))]
+
+theorem firstDiff_spec {rs : List (List Word)} {T m : Nat} {start : DT} {step : Int} {cellsOf : Nat → Nat → List Word}
+    (tb : Table rs T m 1 (iter start step) cellsOf)
+    (h0 : 0 ≤ start.2 ∧ start.2 < 2400) (hs : 0 < step ∧ step ≤ 2400) (hT : 2 ≤ T) :
+    ∀ (d n fuel : Nat), n + d = m → 1 ≤ n → d + 1 ≤ fuel → firstDiff start rs fuel n = some m := by
+  intro d
+  induction d with
+  | zero =>
+    intro n fuel hn h1 hf
+    have hnm : n = m := by omega
+    subst hnm
+    obtain ⟨fuel, rfl⟩ : ∃ k, fuel = k + 1 := ⟨fuel - 1, by omega⟩
+    obtain ⟨r, hr, hdt, _⟩ := tb.row 1 0 (by omega) (by omega)
+    have hidx : n = 1 * (n * 1) + 0 := by omega
+    unfold firstDiff
+    rw [hidx, hr]
+    simp only [Nat.mul_one, Nat.one_mul, Nat.add_zero]
+    have hne : recDT r ≠ start := by
+      rw [hdt]
+      exact iter_ne start step h0 hs 1 0 (by omega)
+    rw [if_pos hne]
+  | succ d ih =>
+    intro n fuel hn h1 hf
+    obtain ⟨fuel, rfl⟩ : ∃ k, fuel = k + 1 := ⟨fuel - 1, by omega⟩
+    obtain ⟨r, hr, hdt, _⟩ := tb.row 0 n (by omega) (by omega)
+    have hidx : n = 0 * (m * 1) + n := by omega
+    unfold firstDiff
+    rw [hidx, hr]
+    have hd : ¬ (recDT r ≠ start) := by rw [hdt]; simp [iter]
+    simp only [hd, if_false]
+    rw [← hidx]
+    exact ih (n + 1) fuel (by omega) (by omega) (by omega)
+
+/-- what the temperature record reader presents for a table of `T` steps of `m` records -/
+def tempView (T m : Nat) (dt : Nat → DT) (cellsOf : Nat → Nat → List Word) : RView :=
+  { nt := T, nz := m - 1, times := (List.range T).map dt,
+    vars := [(List.range T).map (fun i => cellsOf i 0),
+             (List.range T).flatMap (fun i => (List.range (m - 1)).map (fun k => cellsOf i (1 + k)))] }
+
+theorem readTempRows_spec (rs : List (List Word)) (T m : Nat) (start : DT) (step : Int)
+    (cellsOf : Nat → Nat → List Word)
+    (tb : Table rs T m 1 (iter start step) cellsOf)
+    (h0 : 0 ≤ start.2 ∧ start.2 < 2400) (hs : 0 < step ∧ step ≤ 2400) (heven : step % 2 = 0)
+    (hT : 2 ≤ T) (hm : 2 ≤ m) :
+    readTempRows rs = some (tempView T m (iter start step) cellsOf) := by
+  have hlen := tb.len
+  rw [Nat.mul_one] at hlen
+  have hmT : m ≤ T * m := Nat.le_mul_of_pos_left _ (by omega)
+  have hTm : T ≤ T * m := Nat.le_mul_of_pos_right _ (by omega)
+  cases rs with
+  | nil => simp at hlen; omega
+  | cons r0 tl =>
+    obtain ⟨r0', hr0', hdt0, _⟩ := tb.row 0 0 (by omega) (by omega)
+    simp only [Nat.zero_mul, Nat.add_zero, List.getElem?_cons_zero, Option.some.injEq] at hr0'
+    subst hr0'
+    have hstart : recDT r0 = start := hdt0
+    obtain ⟨r1, hr1, hdt1, _⟩ := tb.row 1 0 (by omega) (by omega)
+    simp only [Nat.one_mul, Nat.add_zero, Nat.mul_one] at hr1
+    obtain ⟨rl, hrl, hdtl, _⟩ := tb.row (T - 1) (m - 1) (by omega) (by omega)
+    have hlast : (r0 :: tl).getLast? = some rl := by
+      rw [List.getLast?_eq_getElem?, hlen]
+      have : (T - 1) * (m * 1) + (m - 1) = T * m - 1 := by
+        rw [Nat.mul_one]
+        have : (T - 1 + 1) * m = T * m := by congr 1; omega
+        rw [Nat.succ_mul] at this
+        omega
+      rw [← this]; exact hrl
+    have hfirst := firstDiff_spec tb h0 hs hT (m - 1) 1 (r0 :: tl).length (by omega) (by omega) (by rw [hlen]; omega)
+    have hstep : timediff start (recDT r1) = step := by
+      rw [hdt1, (iter_spec start step h0 hs 1).1]; simp
+    have hdl : timediff start (recDT rl) = ((T - 1 : Nat) : Int) * step := by
+      rw [hdtl]; exact (iter_spec start step h0 hs (T - 1)).1
+    have hcnt : Int.fdiv (((T - 1 : Nat) : Int) * step) step + 1 = T := by
+      rw [Int.mul_fdiv_cancel _ (by omega)]; omega
+    have hstop : timeadd 2400 (timeadd 2400 (recDT rl) step) 0 = iter start step T := by
+      rw [hdtl]
+      have e : timeadd 2400 (iter start step (T - 1)) step = iter start step T := by
+        have : T = (T - 1) + 1 := by omega
+        conv_rhs => rw [this]
+        rfl
+      rw [e]
+      have hX := (iter_spec start step h0 hs T).2
+      rw [timeadd_noroll _ _ (by omega)]
+      simp
+    have hstart0 : timeadd 2400 start 0 = iter start step 0 := by
+      rw [timeadd_noroll _ _ (by omega)]; simp [iter]
+    have htr := trange_spec (T := T) (start := start) (step := step) h0 hs T 0 ((r0 :: tl).length + 1) (by omega) (by rw [hlen]; omega)
+    unfold readTempRows
+    simp only [hstart, hfirst, hr1, hlast, hstep, hdl, hcnt]
+    have hnneg : ¬ ((T : Int) < 0) := by omega
+    have hodd : ¬ (step % 2 = 1) := by omega
+    have hdiv : (r0 :: tl).length / m = T := by rw [hlen]; exact Nat.mul_div_cancel _ (by omega)
+    have hmod : (r0 :: tl).length % m = 0 := by rw [hlen]; exact Nat.mul_mod_left _ _
+    simp only [hnneg, if_false, hodd, hmod, hdiv, ne_eq, not_true_eq_false, gt_iff_lt, lt_self_iff_false, or_self,
+      hstop, hstart0, htr, Int.toNat_natCast, Nat.sub_self, List.replicate_zero, List.append_nil, Nat.zero_mul,
+      Nat.zero_add, tempView, Option.some.injEq, RView.mk.injEq, true_and, List.cons.injEq, and_true]
+    refine ⟨?_, ?_⟩
+    · apply List.map_congr_left
+      intro i hi
+      obtain ⟨r, hr, _, hc⟩ := tb.row i 0 (List.mem_range.mp hi) (by omega)
+      simp only [Nat.mul_one, Nat.add_zero] at hr
+      rw [List.getD_eq_getElem?_getD, hr]
+      exact hc
+    · apply flatMap_congr_mem
+      intro i hi
+      apply List.map_congr_left
+      intro k hk
+      obtain ⟨r, hr, _, hc⟩ := tb.row i (1 + k) (List.mem_range.mp hi) (by have := List.mem_range.mp hk; omega)
+      simp only [Nat.mul_one] at hr
+      rw [List.getD_eq_getElem?_getD, Nat.add_assoc, hr]
+      exact hc
+
 end SlabRead
